@@ -14,7 +14,7 @@ exec 8>$SV/.lock; flock 8
 sed -i "s#path = \"/repo\"#path = \"$SV/repo\"#" $SV/verif/harness/Cargo.toml
 if [ ! -d $SV/repo ]; then git -C /repo worktree add --detach $SV/repo HEAD >/dev/null 2>&1; fi
 cd $SV/repo || exit 2
-git checkout -q -- . ; git checkout -q --detach "$(git -C /repo rev-parse HEAD)"
+git checkout -q -- . ; git clean -fdq -e target -e Cargo.lock; git checkout -q --detach "$(git -C /repo rev-parse HEAD)"
 cp /repo/Cargo.lock . 2>/dev/null
 echo "== demo on the unchanged tree ($(git rev-parse --short HEAD))"
 cargo build --release --offline >/dev/null 2>&1
@@ -31,4 +31,4 @@ for P in "$@"; do
   grep -A1 '^VIOLATION' $SV/check.$P.log | grep -v '^--' | head -6 | cut -c1-260
   [ $rc = 2 ] && tail -5 $SV/check.$P.log
 done
-git checkout -q -- .
+git checkout -q -- . ; git clean -fdq -e target -e Cargo.lock
